@@ -90,7 +90,7 @@ func genPluginFiles(sc *Scenario) {
 				continue // one plugin naming one file twice is that plugin's own business
 			}
 			mine[cleanRel(pth)] = true
-			ps.Files = append(ps.Files, GenFile{Path: pth, Content: fmt.Sprintf("// %s wrote %q\npackage x\n", ps.Name, pth)})
+			ps.Files = append(ps.Files, GenFile{Path: pth, Content: fmt.Sprintf("// %s wrote %q\npackage x\n", ps.ID(), pth)})
 		}
 		for _, f := range ps.Files {
 			taken = append(taken, f.Path)
@@ -337,10 +337,10 @@ func expectC17(sc *Scenario) c17Expect {
 				e.dotdot = append(e.dotdot, fmt.Sprintf("%s: %q", ps.Name, f.Path))
 			}
 			c := cleanRel(f.Path)
-			if o, ok := owner[c]; ok && o != ps.Name {
-				e.conflict = append(e.conflict, fmt.Sprintf("%q from %s and %s", c, o, ps.Name))
+			if o, ok := owner[c]; ok && o != ps.ID() {
+				e.conflict = append(e.conflict, fmt.Sprintf("%q from %s and %s", c, o, ps.ID()))
 			} else {
-				owner[c] = ps.Name
+				owner[c] = ps.ID()
 			}
 		}
 	}
